@@ -3,7 +3,7 @@
 # demo passes on HEAD, fails with the patch; the package's existing tests pass with the patch. Copies it to seeded/<prop>/<name>/.
 set -u
 SRC=$1; PROP=$2; NAME=$3; PKG=${4:-agdb}
-WT=/tmp/confirm_wt_$PROP$NAME; TGT=/tmp/confirm_target_$PKG
+WT=/tmp/confirm_wt_$PROP$NAME; TGT=/tmp/confirm_target_${PKG}_${LANE:-0}
 DST=/verif/seeded/$PROP/$NAME
 mkdir -p $DST
 git -C /repo worktree remove --force $WT 2>/dev/null
